@@ -31,6 +31,9 @@ Clauses (each names the sentence of the statement that licenses it)
                         parts of a nested container depth-first, so that "the first part" is the first
                         part of the score (evaluated on every multi-part case; sub-space
                         `container-trees` enumerates every nesting of groups)
+Sub-space `part-identities` merges parts that share their id and/or their name and abbreviation in every
+possible way (the parts of separately built or loaded scores are all called "P1"): the inputs of the statement
+are the parts at their positions in the list, whatever they are called.
 The convenience loader `load_score_as_part` (anchor) is run on written MusicXML files in sub-spaces
 `loader` and `loader-noteless` with the divisions, registration, voice and note-array clauses and with
 elements-present restricted to notes, rests and unpitched notes (identified by id).
@@ -290,23 +293,37 @@ def check_generic_present(res, case, objs, S, L):
                  detail="missing from the merged part (times in quarters); input divisions %s" % [pdivs(p) for p in case["parts"]])
 
 
-def check_order(res, case, arg, S):
+def check_order(res, case, arg, S, built=None):
     """depth-first flattening of the container: iter_parts (lists, tuples, groups) and Score.parts.
-    Returns a Score (or the PartGroup) holding the structure, for the score-level note array."""
+    Returns a Score (or the PartGroup) holding the structure, for the score-level note array.
+    `built` = the Part objects in list order: the flattening is then also compared by object (parts may
+    share their ids)."""
     exp = [p["id"] for p in case["parts"]]
+
+    def same(got_parts):
+        if [p.id for p in got_parts] != exp:
+            return False
+        return built is None or (len(got_parts) == len(built) and all(a is b for a, b in zip(got_parts, built)))
+
+    def show(got_parts):
+        if built is None or [p.id for p in got_parts] != exp:
+            return [p.id for p in got_parts]
+        pos = {id(b): i for i, b in enumerate(built)}
+        return ["input %s" % pos.get(id(p), "?") for p in got_parts]
+
     holder = arg
     if not isinstance(arg, S.Score):
-        ok, got = guarded(res, "parts-order", lambda: [p.id for p in S.iter_parts(arg)])
-        if ok and got != exp:
-            res.fail("parts-order", expected=exp, observed=got, where="iter_parts", detail="shape=%s" % case["shape"])
+        ok, got = guarded(res, "parts-order", lambda: list(S.iter_parts(arg)))
+        if ok and not same(got):
+            res.fail("parts-order", expected=exp, observed=show(got), where="iter_parts", detail="shape=%s" % case["shape"])
         if not isinstance(arg, S.PartGroup):
             ok, holder = guarded(res, "parts-order", lambda: S.Score(arg, id="sc"))
             if not ok:
                 return None
     if isinstance(holder, S.Score):
-        got = [p.id for p in holder.parts]
-        if got != exp:
-            res.fail("parts-order", expected=exp, observed=got, where="Score.parts", detail="shape=%s" % case["shape"])
+        got = list(holder.parts)
+        if not same(got):
+            res.fail("parts-order", expected=exp, observed=show(got), where="Score.parts", detail="shape=%s" % case["shape"])
     return holder
 
 
@@ -513,7 +530,7 @@ def eval_case(case):
     ref = M.sounding_rows(case)
     parts2 = [build_part(p) for p in parts_spec]
     arg2 = M.make_container(case["shape"], parts2, S)
-    holder = check_order(res, case, arg2, S)
+    holder = check_order(res, case, arg2, S, parts2)
     res.transitions += 1
     if ref:
         if holder is not None:
@@ -1058,6 +1075,63 @@ def gen_trees(tier):
     return g
 
 
+def set_partitions(n):
+    """restricted-growth strings of length n (every partition of the part positions into classes), in
+    lexicographic order"""
+    out = [[0]]
+    for _ in range(n - 1):
+        out = [r + [c] for r in out for c in range(max(r) + 2)]
+    return out
+
+
+ID_LABELS = {"str": ("P1", "P2", "P3"), "none-first": (None, "P1", "P2")}
+NAME_LABELS = {"str": ("Piano", "Violin", "Voice"), "none-first": (None, "Piano", "Violin")}
+ABBR_OF = {None: None, "Piano": "Pno.", "Violin": "Vl.", "Voice": "V."}
+IDENT_DIVS = {2: [(2, 3), (3, 2), (4, 6), (1, 1)], 3: [(2, 3, 4), (6, 4, 1), (3, 2, 3), (1, 1, 1)]}
+IDENT_DIVS_TH = {2: [(1, 2), (6, 4), (3, 4), (5, 5)], 3: [(2, 3, 2), (3, 3, 2), (1, 6, 4), (4, 4, 4)]}
+
+
+def with_identity(part, pid, name):
+    part = dict(part)
+    part["id"] = pid
+    part["name"] = name
+    part["abbr"] = ABBR_OF[name]
+    return part
+
+
+def gen_identities(tier):
+    """parts that are distinguishable by their position only: the identifying attributes of the parts (id; part
+    name and abbreviation) are shared between parts in every possible way"""
+    th = tier == "thorough"
+
+    def g():
+        k = 0
+        for n in (2, 3):
+            rgs = set_partitions(n)
+            divs = IDENT_DIVS[n] + (IDENT_DIVS_TH[n] if th else [])
+            nshape = len(SHAPES_N[n])
+            for ti, idp in enumerate(rgs):
+                for tn, namep in enumerate(rgs):
+                    for tl, lab in enumerate(("str", "none-first")):
+                        for tc, content in enumerate(("rich", "vs")):
+                            # quick, 3 parts: the name partition, the labels and the content follow the other coordinates
+                            if not th and n == 3 and (tn != (ti + tl) % len(rgs) or tc != (ti + tl) % 2):
+                                continue
+                            for ds in divs:
+                                for mode in MODES:
+                                    k += 1
+                                    parts = []
+                                    for i in range(n):
+                                        if content == "rich":
+                                            p = rich_part(i, ds[i])
+                                        else:
+                                            p = vs_part(i, ds[i], PAT5[(k + 2 * i) % 5], struct=(i + k) % 2 == 0)
+                                        parts.append(with_identity(p, ID_LABELS[lab][idp[i]], NAME_LABELS[lab][namep[i]]))
+                                    yield mk(SHAPES_N[n][k % nshape], mode, parts,
+                                             "ident:%s:%s:%s:%s" % ("".join(map(str, idp)), "".join(map(str, namep)), lab, content))
+    return g
+
+
 LOADER_KINDS = ("notes", "rests", "unpitched", "rest+unpitched", "structure")
 
 
@@ -1164,6 +1238,14 @@ def spaces(tier, seed):
                     "measure and signatures only): 25 pairs x 4 divisions pairs {(4,3),(3,4),(2,2),(1,6)} + 125 triples "
                     "(divisions triple cycled over 3); divisions, time points, presence and times of every note, rest and "
                     "unpitched note, note array and voice classes of the result"))
+    sp.append(Space("part-identities", gen_identities(tier), True,
+                    "2 and 3 parts that share their identifying attributes: every partition of the part positions into classes of "
+                    "equal id (2; 5) x every partition into classes of equal part name/abbreviation (2; 5) x labels (strings; the first "
+                    "class None) x content (fixed rich content of space 'divisions'; simultaneous notes with one of 5 voice/staff "
+                    "patterns, cycled, structure on/off cycled) x divisions tuples {(2,3),(3,2),(4,6),(1,1)} / {(2,3,4),(6,4,1),(3,2,3),"
+                    "(1,1,1)}" + (" + 4 more each" if th else "") + " x 3 modes; note ids stay distinct; shape cycled over 6 / 7" +
+                    ("" if th else "; quick, 3 parts: name partition, labels and content cycled with the id partition "
+                                   "(5 id partitions x 2 x 4 divisions triples x 3 modes)")))
     return sp
 
 
